@@ -759,13 +759,17 @@ func calAndSetEventNode(e *Expr) {
 			isFastOp = n.getNodeType() == fastOperator
 		)
 		return func(ctx *Ctx, params []Value) (res Value, err error) {
+			// params may alias a buffer the engine reuses for the next
+			// operator, so the event gets its own copy
+			args := make([]Value, len(params))
+			copy(args, params)
 			res, err = op(ctx, params)
 			e.EventChan <- Event{
 				EventType: OpExecEvent,
 				Data: OpEventData{
 					IsFastOp: isFastOp,
 					OpName:   name,
-					Params:   params,
+					Params:   args,
 					Res:      res,
 					Err:      err,
 				},
